@@ -42,3 +42,27 @@ def recipe_features(rec: Dict[str, Any], violation: Dict[str, Any] = None) -> Li
     for sd in rec.get("subs", {}).values():
         scan(sd["body"], "sub")
     return sorted(feats)
+
+
+def unoptimised_teal_features(teal_text: str):
+    """features of the optimiser's INPUT program (the unoptimised emitted TEAL): a slot that the
+    optimiser will cancel (exactly one load in its routine, directly after a store of the same
+    slot) although the routine stores to it elsewhere as well"""
+    from .teal.parse import parse
+    feats = set()
+    try:
+        prog = parse(teal_text)
+    except Exception:
+        return feats
+    starts = sorted({prog.labels[i.args[0]] for i in prog.instrs if i.op == "callsub" and i.args and i.args[0] in prog.labels})
+    bounds = [0] + starts + [len(prog.instrs)]
+    for a, b in zip(bounds, bounds[1:]):
+        ins = prog.instrs[a:b]
+        slots = {i.args[0] for i in ins if i.op in ("load", "store") and i.args}
+        for s in slots:
+            loads = [k for k, i in enumerate(ins) if i.op == "load" and i.args[0] == s]
+            stores = [k for k, i in enumerate(ins) if i.op == "store" and i.args[0] == s]
+            if len(loads) == 1 and len(stores) >= 2 and loads[0] > 0 and ins[loads[0] - 1].op == "store" \
+                    and ins[loads[0] - 1].args[0] == s:
+                feats.add("optimizer-cancels-slot-with-extra-store")
+    return feats
